@@ -51,6 +51,24 @@ pub mod verif {
         InstanceInformation::from_records(service_name, records)
     }
 
+    #[cfg(feature = "async-tokio")]
+    pub async fn add_response_to_resources_async(
+        packet: Packet<'_>,
+        service_name: &Name<'_>,
+        full_name: &Name<'_>,
+        owned_resources: &mut ResourceRecordManager<'static>,
+        on_discovery: &mut Option<tokio::sync::mpsc::Sender<InstanceInformation>>,
+    ) {
+        crate::async_discovery::verif_add_response_to_resources(
+            packet,
+            service_name,
+            full_name,
+            owned_resources,
+            on_discovery,
+        )
+        .await
+    }
+
     #[cfg(feature = "sync")]
     pub fn add_response_to_resources(
         packet: Packet,
